@@ -18,7 +18,8 @@ EXTENDS Integers, Sequences, FiniteSets, TLC, Json
 CONSTANTS InitialDistance,   \* clientLiveInitialDistance = 3
           MaxDistance,       \* clientLiveMaxDistanceFromEnd = 5
           Variant            \* "ok" = the rule as implemented; weakened rules used as vacuity guards:
-                             \* "ge" (too late already AT the limit), "jump" (a missing next segment -> jump to the live edge)
+                             \* "ge" (too late already AT the limit), "jump" (a missing next segment -> jump to the live edge),
+                             \* "skipAlways" (delta updates requested although CAN-SKIP-UNTIL was not advertised)
 
 None == -1
 
@@ -88,6 +89,6 @@ AfterHint(c) == [c EXCEPT !.cur = c.tgt, !.nseg = c.nseg + 1, !.phase = "pl",
                           !.firstSeg = IF c.firstSeg = None THEN c.tgt ELSE c.firstSeg]
 
 \* the playlist request of phase "pl" carries _HLS_skip=YES exactly in Low-Latency mode with CAN-SKIP-UNTIL
-WantsSkip(c) == ~c.first /\ c.ll /\ c.skip
+WantsSkip(c) == ~c.first /\ c.ll /\ (c.skip \/ Variant = "skipAlways")
 
 =============================================================================
